@@ -152,7 +152,7 @@ func (c *checkCtx) baseJob() simapi.Job {
 func cleanupOldBuilds() {
 	ms, _ := filepath.Glob(filepath.Join(os.TempDir(), "gcsim-build-*"))
 	for _, m := range ms {
-		if st, err := os.Stat(m); err == nil && time.Since(st.ModTime()) > 3*time.Hour {
+		if st, err := os.Stat(m); err == nil && time.Since(st.ModTime()) > 12*time.Hour {
 			os.RemoveAll(m)
 		}
 	}
@@ -168,6 +168,12 @@ func (c *checkCtx) check() int {
 		total, _ = strconv.Atoi(s)
 	}
 	os.Chtimes(c.Build.Dir, time.Now(), time.Now())
+	go func() { // a long run keeps its build directory fresh, so that no other check removes it as stale
+		for {
+			time.Sleep(10 * time.Minute)
+			os.Chtimes(c.Build.Dir, time.Now(), time.Now())
+		}
+	}()
 	timeout := 45 * time.Minute
 	if c.Tier == "thorough" {
 		timeout = 5 * time.Hour
